@@ -8,8 +8,22 @@ use serde_json::{json, Value};
 
 pub const MEMBERS: usize = 3;
 
-pub struct SOrswot;
+/// `M` = size of the member alphabet.  3 (the default) maximises collisions; the "big" variant (16) lets sets,
+/// remove batches and pending-remove member lists grow well beyond a handful of elements.
+pub struct SOrswotN<const M: usize>;
+pub type SOrswot = SOrswotN<3>;
+pub type SOrswotBig = SOrswotN<16>;
 pub type St = Orswot<u8, u8>;
+
+/// member choice: small alphabets uniformly; big alphabets half of the time from the three hot members so that
+/// concurrent edits still meet on the same element
+pub fn pick_member(a: u16, e: u16, n: usize) -> u8 {
+    if n <= 3 || e % 2 == 0 {
+        idx(a, n.min(3)) as u8
+    } else {
+        idx(a, n) as u8
+    }
+}
 
 pub fn sem_of(op: &Op<u8, u8>) -> Sem {
     match op {
@@ -35,14 +49,23 @@ pub fn set_edit_kind(kind: u16, has_actor: bool) -> u8 {
 }
 
 pub fn subset(b: u16, n: usize) -> Vec<u8> {
+    if n > 8 {
+        // big alphabet: 16 independent bits (about half of the members), never empty
+        let mask = (b as usize) & ((1usize << n) - 1);
+        let mask = if mask == 0 { 1 } else { mask };
+        return (0..n as u8).filter(|i| mask & (1 << i) != 0).collect();
+    }
     let mask = 1 + idx(b, (1usize << n) - 1);
     (0..n as u8).filter(|i| mask & (1 << i) != 0).collect()
 }
 
-impl Subject for SOrswot {
+impl<const M: usize> Subject for SOrswotN<M> {
     type St = St;
     type Op = Op<u8, u8>;
     const NAME: &'static str = "Orswot<u8,u8>";
+    fn name() -> String {
+        if M == 3 { "Orswot<u8,u8>".into() } else { format!("Orswot<u8,u8>[{M} members]") }
+    }
     const MERGE: bool = true;
     const NEEDS: Disc = Disc::Fifo;
     fn init() -> St {
@@ -55,7 +78,7 @@ impl Subject for SOrswot {
         s.merge(o)
     }
     fn edit(s: &St, actor: Option<u8>, e: EditArgs, aux: &mut Aux) -> Option<(Self::Op, Sem, String)> {
-        let m = if aux.wide && e.e % 4 != 0 { 0 } else { idx(e.a, MEMBERS) as u8 };
+        let m = if aux.wide && e.e % 4 != 0 { 0 } else { pick_member(e.a, e.e, M) };
         let mut kind = set_edit_kind(e.kind, actor.is_some());
         // removing something absent is legal but mostly idle: usually turn it into an add
         if actor.is_some() && e.d % 4 != 0 {
@@ -78,7 +101,7 @@ impl Subject for SOrswot {
             }
             1 => {
                 let a = actor?;
-                let ms = subset(e.b, MEMBERS);
+                let ms = subset(e.b, M);
                 (s.add_all(ms.clone(), s.read_ctx().derive_add_ctx(a)), format!("add_all({ms:?})"))
             }
             2 => (s.rm(m, s.contains(&m).derive_rm_ctx()), format!("rm({m}) ctx from contains({m})")),
@@ -92,7 +115,7 @@ impl Subject for SOrswot {
                 (s.rm_all(ms.clone(), r.derive_rm_ctx()), format!("rm_all({ms:?}) ctx from read()"))
             }
             _ => {
-                let ms = subset(e.b, MEMBERS);
+                let ms = subset(e.b, M);
                 (s.rm_all(ms.clone(), s.read().derive_rm_ctx()), format!("rm_all({ms:?}) ctx from read()"))
             }
         };
@@ -101,7 +124,7 @@ impl Subject for SOrswot {
         Some((op, sem, call))
     }
     fn edit_stale_rm(s: &St, old: &St, e: EditArgs) -> Option<(Self::Op, Sem, String)> {
-        let m = idx(e.a, MEMBERS) as u8;
+        let m = pick_member(e.a, e.e, M);
         let (op, call) = if idx(e.kind, 4) < 3 {
             (s.rm(m, old.contains(&m).derive_rm_ctx()), format!("rm({m}) ctx from an EARLIER contains({m}) at this replica"))
         } else {
@@ -115,11 +138,11 @@ impl Subject for SOrswot {
         Some((op, sem, call))
     }
     fn observe(s: &St) -> Obs {
-        observe_set(s, MEMBERS)
+        observe_set(s, M)
     }
     fn predict(metas: &[OpMeta], know: Bits) -> Option<Obs> {
         let ds = dotstore::Store::build(metas, know);
-        Some(dotstore::predict_set(&ds, &[], MEMBERS, &ds.clock()))
+        Some(dotstore::predict_set(&ds, &[], M, &ds.clock()))
     }
     fn validate_op(s: &St, op: &Self::Op) -> Result<(), String> {
         s.validate_op(op).map_err(|e| render_dot_range(&e))
@@ -128,7 +151,7 @@ impl Subject for SOrswot {
         a.validate_merge(b).map_err(|e| render_set_merge_err(&e))
     }
     fn ctx_probes(s: &St, actors: &[u8]) -> Vec<CtxProbe> {
-        set_ctx_probes(s, actors, MEMBERS)
+        set_ctx_probes(s, actors, M)
     }
     const RESET: bool = true;
     fn reset_remove(s: &mut St, c: &Clock) {
